@@ -1,7 +1,7 @@
 #!/bin/bash
-# Build the hand-written theories (coq/theories/**) with coq_makefile.
+# Build hand-written theories (coq/theories/**) with coq_makefile.
+# usage: coqbuild.sh [target.vo ...]   (no targets = everything)
 # Called with cwd = /verif/coq, under a lock held by the caller.
-set -e
 { cat _CoqProject.in; find theories -name '*.v' | sort; } > _CoqProject.new
 if ! cmp -s _CoqProject.new _CoqProject 2>/dev/null || [ ! -f Makefile ]; then
   mv _CoqProject.new _CoqProject
@@ -9,4 +9,9 @@ if ! cmp -s _CoqProject.new _CoqProject 2>/dev/null || [ ! -f Makefile ]; then
 else
   rm -f _CoqProject.new
 fi
-timeout 2700 make -j"${VERIF_JOBS:-16}" > build.log 2>&1 || { tail -40 build.log; exit 1; }
+if [ $# -eq 0 ]; then
+  timeout 2700 make -j"${VERIF_JOBS:-16}" > build.log 2>&1 || { grep -v '^Warning' build.log | tail -40; exit 1; }
+else
+  timeout 2700 make -j"${VERIF_JOBS:-16}" "$@" > build.$$.log 2>&1 || { grep -v '^Warning' build.$$.log | tail -40; rm -f build.$$.log; exit 1; }
+  rm -f build.$$.log
+fi
